@@ -35,6 +35,13 @@ func vMonRA(rr *rand.Rand) *ndp.RouterAdvertisement {
 		ra.Options = append(ra.Options, &ndp.PrefixInformation{PrefixLength: []uint8{64, 64, 48, 0, 128, 56}[rr.Intn(6)], OnLink: rr.Intn(2) == 0, AutonomousAddressConfiguration: rr.Intn(2) == 0,
 			ValidLifetime: plts[rr.Intn(len(plts))], PreferredLifetime: plts[rr.Intn(len(plts))], Prefix: netip.MustParseAddr(nets[rr.Intn(len(nets))])})
 	}
+	if rr.Intn(8) == 0 {
+		// what the decoder hands over for a prefix option whose length octet on the
+		// wire exceeds 128: no address, the length as received.  It has no CIDR
+		// form; whatever label it gets, the monitor goes on
+		ra.Options = append(ra.Options, &ndp.PrefixInformation{PrefixLength: uint8(129 + rr.Intn(127)), OnLink: true,
+			ValidLifetime: plts[rr.Intn(len(plts))], PreferredLifetime: plts[rr.Intn(len(plts))]})
+	}
 	if rr.Intn(2) == 0 {
 		ra.Options = append(ra.Options, &ndp.RouteInformation{PrefixLength: 48, RouteLifetime: time.Hour, Prefix: netip.MustParseAddr("2001:db8:ffff::")})
 	}
